@@ -603,19 +603,21 @@ impl BackendMap {
     }
 
     // TODO: return <Result, BackendError>, log the error downstream
-    /// Remove every backend at `backend_address` from `cluster_id` and
-    /// return the list of `backend_id`s that were dropped. Callers (e.g.
-    /// `Server::remove_backend`) iterate over the returned ids to tear
-    /// down per-backend metrics so the identity used by the runtime
-    /// (address-keyed) matches the identity used by the metrics layer
-    /// (id-keyed) — see PR #1252 follow-up review MEDIUM-3.
+    /// Remove the backend `(backend_id, backend_address)` from `cluster_id`
+    /// and return the list of `backend_id`s that were dropped (empty when
+    /// no such backend exists). The identity of a backend is the pair
+    /// (id, address), as in `ConfigState::remove_backend`: another backend
+    /// of the cluster on the same address (A/B test, weighted variant)
+    /// stays in the live set. Callers (e.g. `Server::remove_backend`)
+    /// iterate over the returned ids to tear down per-backend metrics.
     pub fn remove_backend(
         &mut self,
         cluster_id: &str,
+        backend_id: &str,
         backend_address: &SocketAddr,
     ) -> Vec<String> {
         let removed = if let Some(backends) = self.backends.get_mut(cluster_id) {
-            backends.remove_backend(backend_address)
+            backends.remove_backend(backend_id, backend_address)
         } else {
             error!(
                 "Backend was already removed: cluster id {}, address {:?}",
@@ -623,13 +625,17 @@ impl BackendMap {
             );
             return Vec::new();
         };
-        // Whatever ids came back, the address is now gone from the cluster's
-        // live set (remove_backend evicts every backend at that address).
+        // Whatever ids came back, the backend (id, address) is now gone from
+        // the cluster's live set; a sibling on the same address is kept.
         debug_assert!(
             self.backends
                 .get(cluster_id)
-                .is_none_or(|list| !list.has_backend(backend_address)),
-            "remove_backend must evict every backend at the address"
+                .is_none_or(|list| !list
+                    .backends
+                    .iter()
+                    .any(|b| b.borrow().backend_id == backend_id
+                        && &b.borrow().address == backend_address)),
+            "remove_backend must evict the backend (id, address)"
         );
         // Re-evaluate so removing the last backend logs an explicit
         // `AllDown` transition (or, with `total == 0`, drops back to
@@ -1055,19 +1061,23 @@ impl BackendList {
         self.check_invariants();
     }
 
-    /// Remove every backend at `backend_address` and return the list of
-    /// `backend_id`s that were dropped. Two backends with the same address
-    /// but distinct ids (A/B test, weighted variant, dedup race) are both
-    /// removed here; the caller relies on the returned ids to tear down
-    /// matching per-backend state (metrics, health-check). Returning the
-    /// ids closes the identity drift between runtime-removal-by-address
-    /// and metrics-removal-by-id.
-    pub fn remove_backend(&mut self, backend_address: &SocketAddr) -> Vec<String> {
+    /// Remove the backend `(backend_id, backend_address)` and return the
+    /// list of `backend_id`s that were dropped. Two backends with the same
+    /// address but distinct ids (A/B test, weighted variant) are distinct
+    /// backends — `add_backend` keeps both and `ConfigState` removes by
+    /// (id, address) — so only the one named is removed; the caller relies
+    /// on the returned ids to tear down matching per-backend state
+    /// (metrics).
+    pub fn remove_backend(
+        &mut self,
+        backend_id: &str,
+        backend_address: &SocketAddr,
+    ) -> Vec<String> {
         let len_before = self.backends.len();
         let mut removed = Vec::new();
         self.backends.retain(|backend| {
             let b = backend.borrow();
-            if &b.address == backend_address {
+            if &b.address == backend_address && b.backend_id == backend_id {
                 removed.push(b.backend_id.clone());
                 false
             } else {
@@ -1075,15 +1085,19 @@ impl BackendList {
             }
         });
         // The list shrinks by exactly the number of ids reported removed, and
-        // the address is fully evicted (no straggler left behind).
+        // the backend (id, address) is evicted (no straggler left behind).
         debug_assert_eq!(
             self.backends.len(),
             len_before - removed.len(),
             "remove_backend must drop exactly the backends it reports"
         );
         debug_assert!(
-            !self.has_backend(backend_address),
-            "remove_backend must evict every backend at the address"
+            !self
+                .backends
+                .iter()
+                .any(|b| b.borrow().backend_id == backend_id
+                    && &b.borrow().address == backend_address),
+            "remove_backend must evict the backend (id, address)"
         );
         // Rebuild table-based policies (Maglev) off the datapath after the set
         // shrinks, only when something was actually removed. No-op for the
